@@ -381,6 +381,8 @@ def gen_part(rng, pid, big=False, feat=None):
         points.update((n["t"], n["t"] + n["dur"]))
     d["qd"] = [x for x in d["qd"] if x[0] in points]
     gen_extras(rng, d, nstaves)
+    if rng.random() < 0.08:
+        d["warm"] = rng.choice([1, 2, 4, 8, 16, 31, 63])  # a construction history with reads in between (stale memos)
     return d
 
 
@@ -580,6 +582,17 @@ def gen_numeric(rng):
     if len(v) > 1:
         for n in d["notes"]:
             n["voice"] = 1
+    if rng.random() < 0.6:
+        # a second voice that enters late and stops early: <backup> over the whole measure, <forward> across the gaps
+        g = q // 4 if q % 4 == 0 else q
+        for m in range(nm):
+            t0 = m * ln
+            if ln // g >= 3 and rng.random() < 0.8:
+                a = rng.randrange(0, ln // g - 1)
+                b = rng.randrange(a + 1, ln // g + 1)
+                nid += 1
+                d["notes"].append({"id": "m%d" % nid, "t": t0 + a * g, "dur": (b - a) * g, "kind": "note", "step": rng.choice(STEPS),
+                                   "alter": 0, "oct": rng.randint(0, 9), "voice": 2, "staff": 1})
     if nm >= 3 and rng.random() < 0.4:
         d["extras"].append(["Repeat", 0, 2 * ln, {}])
         d["extras"].append(["Ending", ln, 2 * ln, {"number": rng.choice([1, 12, 1234567])}])
@@ -626,6 +639,16 @@ def build_part(d):
     import partitura.score as S
 
     p = S.Part(d["id"], part_name=d.get("name"), part_abbreviation=d.get("abbr"), quarter_duration=d["divs"])
+    warm = int(d.get("warm") or 0)
+
+    def Wm(bit):
+        # `warm` bit mask as in gen_score.build_part: read-only views (maps, note arrays, notes_tied, number_of_staves,
+        # symbolic durations ...) in the middle of the construction; the finished part must be the one of the plain build
+        if warm & (1 << bit):
+            import gen_score
+
+            gen_score.warm_readers(p, bool(warm & 32))
+
     for t, q in d.get("qd", []):
         p.set_quarter_duration(t, q)
     if d.get("pages"):
@@ -637,6 +660,7 @@ def build_part(d):
         p.add(S.KeySignature(f, m), t)
     for t, staff, sign, line, oc in d.get("clefs", []):
         p.add(S.Clef(staff, sign, line, oc), t)
+    Wm(0)
     byid = {}
     for n in d.get("notes", []):
         kw = dict(id=n["id"], voice=n.get("voice"), staff=n.get("staff"))
@@ -666,6 +690,7 @@ def build_part(d):
             f = S.Fermata(o)
             p.add(f, n["t"])
             o.fermata = f
+    Wm(1)
     for n in d.get("notes", []):
         if n.get("tie"):
             a, b = byid[n["id"]], byid[n["tie"]]
@@ -676,6 +701,7 @@ def build_part(d):
             a.grace_next = b
             if isinstance(b, S.GraceNote):
                 b.grace_prev = a
+    Wm(2)
     for a, b in d.get("slurs", []):
         sl = S.Slur(byid[a], byid[b])
         p.add(sl, byid[a].start.t, byid[b].end.t)
@@ -692,8 +718,10 @@ def build_part(d):
         else:
             o = getattr(S, cls)(**kw)
         p.add(o, st, en)
+    Wm(3)
     for st, en, num, name in d.get("measures", []):
         p.add(S.Measure(number=num, name=name), st, en)
+    Wm(4)
     return p
 
 
@@ -928,10 +956,31 @@ def _sig(el):
     return "%s%08x" % (el.tag[:3], zlib.crc32(repr(rec(el)).encode()))
 
 
+class NotMusicXML(Exception):
+    """a number in the written file that is not a number of MusicXML (xs:decimal / xs:integer have no exponent, no inf/nan)"""
+
+
+def _num(text, where):
+    """the integer a numeric text of the file denotes; a text that is no xs:decimal at all (`2.54016e+07`) is not MusicXML:
+    NotMusicXML.  (A decimal that is not whole is MusicXML, but nothing partitura's integer time line can have produced:
+    the plain ValueError makes the case unobservable rather than a verdict.)"""
+    import re
+
+    t = (text or "").strip()
+    if not re.fullmatch(r"[+-]?(\d+(\.\d*)?|\.\d+)", t):
+        raise NotMusicXML("<%s>%s</%s> is not a decimal number" % (where, text, where))
+    f = Fraction(t)
+    if f.denominator != 1:
+        raise ValueError("non-integral <%s>%s" % (where, text))
+    return int(f)
+
+
 def _int(e, tag, default=0):
     c = e.find(tag)
     if c is None or c.text is None:
         return default
+    if tag == "duration":
+        return _num(c.text, tag)
     return int(c.text)
 
 
@@ -1531,7 +1580,7 @@ def py_interpret(root):
                 if e.tag == "attributes":
                     dv = e.find("divisions")
                     if dv is not None:
-                        divs = int(dv.text)
+                        divs = _num(dv.text, "divisions")
                 elif e.tag == "backup":
                     qpos = max(mstart, qpos - Fraction(_int(e, "duration"), divs))
                 elif e.tag == "forward":
@@ -1647,6 +1696,10 @@ def shrink(desc):
             d["struct"] = list(range(len(d["parts"])))
             yield d
     for pi, p in enumerate(ps):
+        if p.get("warm"):
+            d = copy.deepcopy(desc)
+            del d["parts"][pi]["warm"]
+            yield d
         for fld in ("slurs", "tuplets", "extras"):
             for i in range(len(p.get(fld, []))):
                 d = copy.deepcopy(desc)
@@ -1778,8 +1831,12 @@ def _check_roundtrip(ev, s, what, streams, from_file):
         for msg in check_derived_ends(p):
             fail("set_end_times: " + msg)
     # ---------------- independent interpretation of the bytes
-    root, written = parse_written(x1)
-    indep = py_interpret(root)
+    try:
+        root, written = parse_written(x1)
+        indep = py_interpret(root)
+    except NotMusicXML as e:
+        fail("interpreter: the written file is not MusicXML: %s" % e)
+        return
     for p in s.parts:
         snd, meas = score_sounding(p)
         got = indep.get(p.id)
@@ -2161,8 +2218,12 @@ def distribution(descs, results):
             for p in d["parts"]:
                 feats["parts"] += 1
                 feats["voices=%s" % len(set(n.get("voice") for n in p["notes"]))] += 1
-                for f in ("qd", "slurs", "tuplets", "extras"):
+                for f in ("qd", "slurs", "tuplets", "extras", "warm", "family"):
                     if p.get(f):
                         feats[f] += 1
+                for e in p.get("extras", []):
+                    if e[0] == "Tempo":
+                        r = repr(float(e[3]["bpm"]))
+                        feats["tempo:" + ("exponent" if "e" in r else "whole" if r.endswith(".0") else "%d+ digits" % (5 * (len(r.replace(".", "").lstrip("0")) // 5)))] += 1
     req = Counter(r["requests"][i].split(" ")[0] for r in results for i in range(len(r["requests"])))
     return {"by_kind": dict(c), "features": dict(feats), "requests": dict(req)}
